@@ -6,7 +6,7 @@ while true; do
     base=$(basename "$out" -out); idn=${base#seed-}; id=${idn%-*}; n=${idn##*-}
     [ -f "/verif/seeded/$idn/check.log" ] && continue
     # agent must have finished: meta.json older than 3 minutes
-    [ $(( $(date +%s) - $(stat -c %Y "$out/meta.json") )) -gt 180 ] || continue
+    [ $(( $(date +%s) - $(stat -c %Y "$out/meta.json") )) -gt 1200 ] || continue
     echo "$(date +%T) evaluating $idn" >> /tmp/seed_queue.log
     /verif/tools/eval_seed.sh "$id" "$n" seedq >> /tmp/seed_queue.log 2>&1
   done
